@@ -140,6 +140,8 @@ def trace_values(trace):
 
 CANARY = "VACUITY-CANARY"
 
+_SLOTS = threading.BoundedSemaphore(max(2, (os.cpu_count() or 4)))     # at most one solver process per core
+
 def run_job(job, propdir, verbose=False):
     res = JobResult(job)
     wd = os.path.join(propdir, re.sub(r'[^\w.-]', '_', job.name))
@@ -199,21 +201,28 @@ def run_job(job, propdir, verbose=False):
         winner = {}
         def run_backend(be):
             cmd = base + extra + be
-            t0 = time.time()
+            _SLOTS.acquire()
             try:
-                p = subprocess.Popen(cmd, cwd=wd, stdout=subprocess.PIPE, stderr=subprocess.PIPE,
-                                     preexec_fn=_limits, text=True)
-            except Exception as e:
-                return
-            with lock:
-                procs.append(p)
-            try:
-                out, err = p.communicate(timeout=tmo)
-            except subprocess.TimeoutExpired:
-                try: os.killpg(p.pid, signal.SIGKILL)
-                except Exception: pass
-                p.communicate()
-                return
+                with lock:
+                    if winner.get("results") is not None:
+                        return          # another back end already answered
+                t0 = time.time()
+                try:
+                    p = subprocess.Popen(cmd, cwd=wd, stdout=subprocess.PIPE, stderr=subprocess.PIPE,
+                                         preexec_fn=_limits, text=True)
+                except Exception as e:
+                    return
+                with lock:
+                    procs.append(p)
+                try:
+                    out, err = p.communicate(timeout=tmo)
+                except subprocess.TimeoutExpired:
+                    try: os.killpg(p.pid, signal.SIGKILL)
+                    except Exception: pass
+                    p.communicate()
+                    return
+            finally:
+                _SLOTS.release()
             results, status, errs = parse_cbmc_json(out)
             if results is not None and status in ("success", "failure"):
                 with lock:
@@ -325,7 +334,7 @@ def run_jobs(jobs, propdir, workers=None):
     results = []
     def weight(j):
         return max(1, len(j.backends)) * (4 if j.split else 1)
-    w = workers or max(2, min(len(jobs), ncpu // max(1, max(weight(j) for j in jobs)) if jobs else 1))
+    w = workers or max(2, min(len(jobs), 2 * ncpu))      # solver processes are throttled by _SLOTS, not by the number of job threads
     with ThreadPoolExecutor(max_workers=w) as ex:
         futs = [ex.submit(run_job, j, propdir) for j in jobs]
         for f in futs:
